@@ -27,7 +27,7 @@ NAMES = ('AAA', 'BB', 'C', 'D4')
 
 def matrix_cases(tier):
     out = []
-    for n, alpha in ((1, 'IN-'), (2, 'IN-'), (3, 'IN-'), (4, 'I-')):
+    for n, alpha in ((1, 'IN-'), (2, 'IN-'), (3, 'IN-'), (4, 'I-'), (2, ('I', '0', '1', '2.5')), (3, ('N', '1', '-'))):
         if tier == 'quick' and n == 4:
             alpha = 'I-'
         pairs = [(i, j) for i in range(n) for j in range(i + 1)]
@@ -72,7 +72,37 @@ def pair_cases(tier):
                 for dpos in (0, 2):
                     lines = [[i, f1, 0], [i, f2, 1]] if other is None else [[i, f1, 0], [other, 0, 0], [i, f2, 1]]
                     out.append(dict(kind='pairs', lines=lines, default_at=min(dpos, len(lines))))
+    # explicit pairs whose values coincide with a default (the initial 0/0, the declared one), defaults declared twice,
+    # pairs re-defined back to the default: an explicit pair keeps its own values whatever the default becomes
+    for i in range(len(upairs)):
+        for val in ('zero', 'declared', 'second'):
+            for dpos in (0, 1):
+                out.append(dict(kind='pairs2', script=[['pair', i, 0, val]], default_at=dpos, second_default=False))
+                out.append(dict(kind='pairs2', script=[['pair', i, 0, val]], default_at=dpos, second_default=True))
+                out.append(dict(kind='pairs2', script=[['pair', i, 0, 'own'], ['pair', i, 1, val]], default_at=dpos, second_default=True))
     return out
+
+
+PAIR_VALUES = {'zero': (0.0, 0.0), 'declared': (3.5, 4.5), 'second': (2.25, 5.5), 'own': (1.25, 2.75)}
+
+
+def pair2_text(case):
+    names = NAMES[:3]
+    upairs = [(a, b) for i, a in enumerate(names) for b in names[i:]]
+    lines, ref = [], {}
+    for kind, i, flip, val in case['script']:
+        a, b = upairs[i]
+        if flip:
+            a, b = b, a
+        vv = PAIR_VALUES[val]
+        ref[(a, b)] = ref[(b, a)] = vv
+        lines.append('sidechain_cutoffs %s %s %s %s\n' % (a, b, vv[0], vv[1]))
+    lines.insert(min(case['default_at'], len(lines)), 'sidechain_cutoffs default 3.5 4.5\n')
+    default = (3.5, 4.5)
+    if case['second_default']:
+        lines.append('sidechain_cutoffs default 2.25 5.5\n')
+        default = (2.25, 5.5)
+    return ''.join(lines), ref, default
 
 
 def pair_text(case):
@@ -154,19 +184,24 @@ def run_case(case, ctx, acc):
             for j in range(n):
                 a, b = NAMES[i], NAMES[j]
                 g1, g2 = im.get_value(a, b), im.get_value(b, a)
-                if g1 != g2:
+                want = m[(i, j)]
+                try:
+                    want = float(want)     # numeric entries are stored as numbers
+                except ValueError:
+                    pass
+                if g1 != g2 or type(g1) is not type(g2):
                     v.append(('matrix-asymmetric', 'get_value(%s,%s)=%r but (%s,%s)=%r' % (a, b, g1, b, a, g2)))
-                elif g1 != m[(i, j)]:
-                    v.append(('matrix-wrong-value', 'get_value(%s,%s)=%r expected %r' % (a, b, g1, m[(i, j)])))
+                elif g1 != want or type(g1) is not type(want):
+                    v.append(('matrix-wrong-value', 'get_value(%s,%s)=%r expected %r' % (a, b, g1, want)))
             if im.get_value(NAMES[i], 'ZZZ') is not None or im.get_value('ZZZ', NAMES[i]) is not None:
                 v.append(('matrix-unknown-name', 'unknown name returns a value'))
         acc.case(nontrivial_key=jhash(case), outcome='matrix-%d' % n)
-    elif k == 'pairs':
-        text, ref, default = pair_text(case)
+    elif k in ('pairs', 'pairs2'):
+        text, ref, default = pair_text(case) if k == 'pairs' else pair2_text(case)
         p = read(text)
         pm = p.sidechain_cutoffs
         names = NAMES[:3]
-        acc.extra['states'] += len(case['lines']) + 1
+        acc.extra['states'] += len(case.get('lines', case.get('script', []))) + 1
         acc.extra['transitions'] += 9
         for a in names:
             for b in names:
@@ -175,11 +210,12 @@ def run_case(case, ctx, acc):
                 if tuple(g1) != tuple(g2):
                     v.append(('pairs-asymmetric', 'get_value(%s,%s)=%r but reversed %r' % (a, b, g1, g2)))
                 elif tuple(g1) != tuple(want):
+                    nl = len(case.get('lines', case.get('script', [])))
                     ck = 'pairs-default-not-applied/default-line-at-%s' % (
-                        'start' if case['default_at'] == 0 else 'end' if case['default_at'] == len(case['lines']) else 'middle') \
+                        'start' if case['default_at'] == 0 else 'end' if case['default_at'] >= nl else 'middle') \
                         if (a, b) not in ref else 'pairs-wrong-value'
                     v.append((ck, 'get_value(%s,%s)=%r expected %r' % (a, b, g1, want)))
-        acc.case(nontrivial_key=jhash(case), outcome='pairs-%d' % len(case['lines']))
+        acc.case(nontrivial_key=jhash(case), outcome='pairs-%d' % len(case.get('lines', case.get('script', []))))
     elif k == 'squared':
         name, val, how = case['name'], case['value'], case['how']
         lines = {'plain': ['%s %r\n' % (name, val)], 'squared': ['%s_squared %r\n' % (name, val)],
